@@ -495,4 +495,9 @@ def run (cfg : Cfg) (s : St) : List Tid → St
 def init (cfg : Cfg) (adv gate : Nat) : St :=
   { sh := { buf := Array.replicate cfg.size 0, pseq := adv, cseq := adv, gate := gate } }
 
+/-- initial state with the thread programs -/
+def mkInit (cfg : Cfg) (adv gate : Nat) (progP progC : List Call) (progsK : List (List Call)) : St :=
+  { init cfg adv gate with
+    P := { prog := progP }, C := { prog := progC }, K := progsK.map (fun p => { prog := p }) }
+
 end Mqtt.Model.Ring
